@@ -517,9 +517,9 @@ func boundsRuleFor(c *Ctx, r *Report, rule string, entryNames []string, strs boo
 		fns = append(fns, f)
 	}
 	sort.Slice(fns, func(i, j int) bool { return fnDisplay(fns[i]) < fnDisplay(fns[j]) })
-	saved := withStrings
-	withStrings = strs
-	defer func() { withStrings = saved }()
+	saved, savedAll := withStrings, withAllSlices
+	withStrings, withAllSlices = strs, true
+	defer func() { withStrings, withAllSlices = saved, savedAll }()
 	bp := newBoundsProver(c, e, scope)
 	counter := map[string]int{}
 	for _, f := range fns {
